@@ -121,6 +121,24 @@ type world struct {
 	modules    map[string]int // successful messages per module
 	msgOK      map[string]int
 	msgFail    map[string]int
+	// counters of the rarer shapes (classes shared by the C11/C12/C13 machines)
+	htltCreated, htltClaimed, oracleRandom, seedProviders, timePromoBindings int
+}
+
+// shapeClasses names the rarer shapes this history contained (accepted transactions only).
+func (w *world) shapeClasses() []string {
+	var cl []string
+	add := func(ok bool, s string) {
+		if ok {
+			cl = append(cl, s)
+		}
+	}
+	add(w.htltCreated > 0, "htlt-created")
+	add(w.htltClaimed > 0, "htlt-claimed")
+	add(w.oracleRandom > 0, "oracle-random-request")
+	add(w.oracleRandom > 0 && w.seedProviders >= 2, "oracle-random-request-with->=2-providers")
+	add(w.timePromoBindings > 0, "binding-with-time-promotion")
+	return cl
 }
 
 func newWorld() *world {
@@ -280,6 +298,23 @@ func (h *hist) nextTx(t *rapid.T) (txSpec, bool) {
 		}
 		return txSpec{u, h.enc(msgs...)}, true
 	case "random":
+		// providers of the seed service: several of them, so that the module's provider draw has a choice
+		nprov, mine := 0, false
+		k.Service.IterateServiceBindings(ctx, func(b servicetypes.ServiceBinding) bool {
+			if b.ServiceName == randomtypes.ServiceName {
+				nprov++
+				mine = mine || b.Provider == me
+			}
+			return false
+		})
+		switch r := rapid.IntRange(0, 5).Draw(t, "randop"); {
+		case r <= 1 && nprov < 4 && !mine && u < h.rich:
+			return txSpec{u, h.enc(&servicetypes.MsgBindService{ServiceName: randomtypes.ServiceName, Provider: me, Deposit: coins("stake", 30000),
+				Pricing: fmt.Sprintf(`{"price":"%dstake"}`, rapid.IntRange(1, 3).Draw(t, "seedprice")), QoS: uint64(rapid.IntRange(1, 3).Draw(t, "qos")), Options: "{}", Owner: me})}, true
+		case r <= 3 && nprov > 0:
+			return txSpec{u, h.enc(&randomtypes.MsgRequestRandom{BlockInterval: uint64(rapid.IntRange(0, 4).Draw(t, "interval")), Consumer: me, Oracle: true,
+				ServiceFeeCap: coins("stake", int64(rapid.SampledFrom([]int{10, 10, 2, 1}).Draw(t, "seedcap")))})}, true
+		}
 		return txSpec{u, h.enc(&randomtypes.MsgRequestRandom{BlockInterval: uint64(rapid.IntRange(0, 6).Draw(t, "interval")), Consumer: me})}, true
 	case "nft":
 		switch a := rapid.IntRange(0, 5).Draw(t, "nftop"); {
@@ -475,6 +510,26 @@ func (h *hist) nextTx(t *rapid.T) (txSpec, bool) {
 			return txSpec{u, h.enc(&htlctypes.MsgClaimHTLC{Sender: me, Id: x.ID, Secret: x.Secret})}, true
 		}
 		sec := sha256.Sum256([]byte(fmt.Sprintf("secret-%d", s)))
+		if x := rapid.IntRange(0, 3).Draw(t, "htlt"); x <= 1 {
+			// cross-chain transfer of the genesis asset (deputy U1): incoming = created by the deputy, minted to the
+			// recipient on claim; outgoing = created by a holder towards the deputy, burned on claim
+			ts := uint64(h.n.Time.Unix())
+			hl := hex.EncodeToString(htlctypes.GetHashLock(sec[:], ts))
+			lock := uint64(rapid.IntRange(50, 60).Draw(t, "lock"))
+			deputy := h.addr(1)
+			if x == 0 {
+				return txSpec{1, h.enc(&htlctypes.MsgCreateHTLC{Sender: deputy, To: h.addr(h.user(t, "to")), ReceiverOnOtherChain: "r", SenderOnOtherChain: "s",
+					Amount: coins(HtltDenom, int64(rapid.IntRange(2, 5000).Draw(t, "amt"))), HashLock: hl, Timestamp: ts, TimeLock: lock, Transfer: true})}, true
+			}
+			if bal := h.n.App.BankKeeper.GetBalance(ctx, h.n.Users[u].Addr, HtltDenom).Amount; bal.GT(sdkmath.NewInt(2)) && u != 1 {
+				amt := bal.QuoRaw(int64(rapid.IntRange(1, 3).Draw(t, "part")))
+				if amt.LTE(sdkmath.NewInt(2)) {
+					amt = sdkmath.NewInt(3)
+				}
+				return txSpec{u, h.enc(&htlctypes.MsgCreateHTLC{Sender: me, To: deputy, ReceiverOnOtherChain: "r", SenderOnOtherChain: "s",
+					Amount: sdk.NewCoins(sdk.NewCoin(HtltDenom, amt)), HashLock: hl, Timestamp: ts, TimeLock: lock, Transfer: true})}, true
+			}
+		}
 		ts := uint64(0)
 		if rapid.Bool().Draw(t, "withts") {
 			ts = uint64(h.n.Time.Unix())
@@ -605,6 +660,12 @@ func (h *hist) nextTx(t *rapid.T) (txSpec, bool) {
 				return txSpec{}, false
 			}
 			out := fmt.Sprintf(`{"header":{},"body":{"last":"%d.%02d"}}`, rapid.IntRange(0, 5000).Draw(t, "val"), rapid.IntRange(0, 99).Draw(t, "frac"))
+			if rid, err := hex.DecodeString(r.id); err == nil {
+				if rq, ok := k.Service.GetRequest(ctx, rid); ok && rq.ServiceName == randomtypes.ServiceName {
+					// the seed service of the random module answers with 32 bytes in hex
+					out = fmt.Sprintf(`{"header":{},"body":{"seed":"%s"}}`, hex.EncodeToString(rapid.SliceOfN(rapid.Byte(), 32, 32).Draw(t, "seed")))
+				}
+			}
 			return txSpec{pu, h.enc(&servicetypes.MsgRespondService{RequestId: r.id, Provider: r.provider, Result: hResult, Output: out})}, true
 		case a == 8 && len(w.ctxs) > 0:
 			c := pick(t, "ctx", w.ctxs)
@@ -765,14 +826,32 @@ func (h *hist) observe(op blockOp, resp *abci.ResponseFinalizeBlock) {
 			case *servicetypes.MsgBindService:
 				var price int64
 				fmt.Sscanf(x.Pricing, `{"price":"%dstake`, &price)
-				w.bindings = append(w.bindings, hBinding{x.ServiceName, tx.User, price})
+				if x.ServiceName != randomtypes.ServiceName {
+					w.bindings = append(w.bindings, hBinding{x.ServiceName, tx.User, price})
+				} else {
+					w.seedProviders++
+				}
+				if strings.Contains(x.Pricing, "promotions_by_time") {
+					w.timePromoBindings++
+				}
 			case *servicetypes.MsgCallService:
 				for _, id := range attrs(res.Events, "create_context", "request_context_id") {
 					w.ctxs = append(w.ctxs, hCtx{id, tx.User})
 				}
 			case *oracletypes.MsgCreateFeed:
 				w.feeds = append(w.feeds, hFeed{x.FeedName, tx.User, x.ServiceName})
+			case *randomtypes.MsgRequestRandom:
+				if x.Oracle {
+					w.oracleRandom++
+				}
+			case *htlctypes.MsgClaimHTLC:
+				if strings.Contains(fmt.Sprint(attrs(res.Events, "claim_htlc", "transfer")), "true") {
+					w.htltClaimed++
+				}
 			case *htlctypes.MsgCreateHTLC:
+				if x.Transfer {
+					w.htltCreated++
+				}
 				for _, id := range attrs(res.Events, "create_htlc", "id") {
 					// the secret is a function of the sequence number used when the message was drawn: recover it
 					// from the hash lock by search over the few candidates
@@ -976,13 +1055,21 @@ func (h *hist) govTx(t *rapid.T) (txSpec, bool) {
 	case 2:
 		p := k.Farm.GetParams(ctx)
 		p.PoolCreationFee = sdk.NewInt64Coin("stake", int64(pick(t, "farmfee", []int{5000, 1, 70000})))
-		p.TaxRate = dec("farmtax", "0.4", "0.05", "0.9")
+		p.TaxRate = dec("farmtax", "0.4", "0.05", "0.9", "0.3333", "0", "1")
+		// the category limit only guards new pools and appended rewards: existing pools keep their rules
+		p.MaxRewardCategories = uint32(pick(t, "maxcat", []int{2, 1, 1, 3}))
+		if rapid.IntRange(0, 3).Draw(t, "oddfee") == 0 {
+			p.PoolCreationFee = sdk.NewInt64Coin("stake", int64(pick(t, "farmfee2", []int{5001, 3, 7777})))
+		}
 		msg = &farmtypes.MsgUpdateParams{Authority: gov, Params: p}
 	default:
 		p := k.Service.GetParams(ctx)
 		p.ServiceFeeTax = dec("svctax", "0.05", "0", "0.5")
 		p.SlashFraction = dec("slash", "0.001", "0", "0.5", "1")
 		p.MaxRequestTimeout = int64(pick(t, "maxto", []int{100, 10, 1000}))
+		p.MinDepositMultiple = int64(pick(t, "depmult", []int{1000, 1000, 1, 5000}))
+		p.MinDeposit = coins("stake", int64(pick(t, "mindep", []int{5000, 5000, 1, 20000})))
+		p.RestrictedServiceFeeDenom = rapid.IntRange(0, 5).Draw(t, "restrictdenom") == 0
 		msg = &servicetypes.MsgUpdateParams{Authority: gov, Params: p}
 	}
 	sp, err := govv1.NewMsgSubmitProposal([]sdk.Msg{msg}, sdk.NewCoins(sdk.NewInt64Coin("stake", 5)), h.addr(0), "", "params", "change parameters", false)
